@@ -125,8 +125,7 @@ theorem set_call_as_modelled :
        "ob->interactive->input_to = sent;"] := by decide
 
 /-- `promptStage`: the prompt is written only while `ip->input_to == 0`; the record is re-validated (IP_VALID) after each
-    step that can run LPC code (write_prompt is not defined by the scripted user object: the flag is dropped at the first
-    prompt and the default prompt is written) -/
+    step that can run LPC code (the scripted user object defines write_prompt(): hook kind `prompt`, unprotected apply) -/
 theorem prompt_as_modelled :
     NV.Gen.C09.promptStmts =
       ["if (ip->input_to == 0)",
@@ -226,9 +225,9 @@ theorem remove_tests_as_modelled :
     (unprotected: an error unwinds to backend() - `logonHook`, `abandoned`), clean_up (recovery point of the sweep -
     `cleanupObject`), heart_beat (`hbLoop`), the master's error_handler (errors re-enter error_handler -
     `callMasterHandler`), process_input x2 of process_user_command (`inputStage`), net_dead (safe_apply - `netDeadHook`), the
-    input_to callback (`inputToCommand`), both call_out forms (per-entry recovery point - `sweepCallOuts`).  Not modelled
+    input_to callback (`inputToCommand`), write_prompt (`promptStage`), both call_out forms (per-entry recovery point - `sweepCallOuts`).  Not modelled
     (see not_covered): preload/epilog (before backend()), receive_snoop, the three telnet callbacks (safe_apply, C13),
-    process_input of the ASCII port in get_user_data, write_prompt (not defined by the scripted user), address-server
+    process_input of the ASCII port in get_user_data, address-server
     callbacks, notify_fail closure.  A NEW site - protected or not - changes this list and breaks the obligation. -/
 theorem apply_sites_as_modelled :
     NV.Gen.C09.applySites =
